@@ -122,9 +122,14 @@ func (w *recWriter) Init(c plugintypes.AuditLogConfig) error {
 func (w *recWriter) Write(al plugintypes.AuditLog) error {
 	rec := recRecord{ID: al.Transaction().ID(), Log: al}
 	for _, m := range al.Messages() {
-		if m.Data() != nil {
-			rec.RuleIDs = append(rec.RuleIDs, m.Data().ID())
-		}
+		// Data() may be a typed nil inside a non-nil interface (messages that
+		// only carry the error-log line): guard the dereference.
+		func() {
+			defer func() { recover() }()
+			if d := m.Data(); d != nil {
+				rec.RuleIDs = append(rec.RuleIDs, d.ID())
+			}
+		}()
 	}
 	if w.formatter != nil {
 		b, err := w.formatter.Format(al)
